@@ -4,6 +4,6 @@ go 1.25
 
 require github.com/bool64/cache v0.0.0
 
-require github.com/cespare/xxhash/v2 v2.2.0 // indirect
+require github.com/cespare/xxhash/v2 v2.2.0
 
 replace github.com/bool64/cache => /repo
